@@ -140,6 +140,9 @@ class Contracts:
                 self.used.append((c, 'uninterpreted:' + kind))
                 if kind == 'val':
                     return [(st, ('uf', c, ca))]
+                if kind == 'some':
+                    # total on the arguments that reach it (stated assumption of the caller's contract)
+                    return [(st, Some(('uf', c, ca)))]
                 if kind == 'unit':
                     st.notes.append(('ufcall', c, ca))
                     return [(st, S('()', []))]
@@ -220,6 +223,17 @@ class Contracts:
             if m.group(1) in k:
                 return [(st, ('ref', ('u256', k[m.group(1)])))]
             raise Unsupported("unknown static " + m.group(1))
+        if re.match(r'^Vec::<.*>::new$', c):
+            return [(st, ('vec', ()))]
+        if re.match(r'^Vec::<.*>::is_empty$', c):
+            v = unref(interp, st, args[0])
+            if isinstance(v, tuple) and v and v[0] == 'vec':
+                return [(st, B(len(v[1]) == 0))]
+            if isinstance(v, tuple) and v and v[0] == 'vecsym':
+                s1 = st.fork(); s1.notes.append(('vec_empty', v[1], True))
+                s2 = st.fork(); s2.notes.append(('vec_empty', v[1], False))
+                return [(s1, B(True)), (s2, B(False))]
+            raise Unsupported("Vec::is_empty on an unknown value")
         if re.search(r'as Clone>::clone$', c):
             return [(st, a[0])]
 
